@@ -85,8 +85,10 @@ class Drain(threading.Thread):
                     return
                 if self.pacing == "small" and self.rng.random() < 0.05:
                     time.sleep(0.002)
-                if self.pacing in ("stall", "small_then_sender_disables") and self.rng.random() < 0.05:
+                if self.pacing == "stall" and self.rng.random() < 0.05:
                     time.sleep(0.002)
+                if self.pacing == "small_then_sender_disables":
+                    time.sleep(0.0005)      # slow enough that most of the data is still on its way when the sender disables
                 if self.pacing == "stall" and not self.stalled and len(self.data) >= (1 << 20):
                     # the peer accepts nothing for longer than any of the protocol time-outs (T8 = 5 s), then goes on
                     self.stalled = True
@@ -299,7 +301,7 @@ def run(ctx):
             cases.append((active, path, [256 * 1024], "small_then_sender_disables", 4096))
             cases.append((active, path, [3, 600000], "small_then_sender_disables", 0))
             if path == "send_data":
-                cases.append((active, path, [6 * MiB], "stall", 0))
+                cases.append((active, path, [12 * MiB], "stall", 65536))     # far more than the socket buffers can take during the stall
     extra = 0 if ctx.quick else 200
     for _ in range(extra):
         cases.append((rng.random() < 0.5, rng.choice(["send_data", "send_message"]),
